@@ -109,14 +109,15 @@ func (st *State) memmove(dst, src *Term, n int) {
 	so, soff := st.resolve(s, n, "copy source")
 	st.noteAccess(so, soff, n, false)
 	tmp := make([]*Term, n)
-	if so.bytes != nil {
-		copy(tmp, so.bytes[soff:soff+n])
+	for i := 0; i < n; i++ {
+		tmp[i] = so.getByte(soff + i)
 	}
 	do, doff := st.resolve(d, n, "copy destination")
 	do = st.wobj(do)
 	st.noteAccess(do, doff, n, true)
-	do.ensure()
-	copy(do.bytes[doff:doff+n], tmp)
+	for i := 0; i < n; i++ {
+		do.setByte(doff+i, tmp[i])
+	}
 	st.publishRange(do, doff, n)
 }
 
@@ -208,7 +209,7 @@ func (st *State) strConcat(x, y StrV) Value {
 	o.ensure()
 	for i, t := range append(append([]*Term(nil), a...), b...) {
 		if !(t.IsConst() && t.C == 0) {
-			o.bytes[i] = t
+			o.setByte(i, t)
 		}
 	}
 	return StrV{st.ptrTo(o, 0), st.c.Const(64, uint64(len(a)+len(b)))}
@@ -220,7 +221,7 @@ func (st *State) newBytes(b []byte, label string) SliceV {
 	o.ensure()
 	for i, x := range b {
 		if x != 0 {
-			o.bytes[i] = st.c.Const(8, uint64(x))
+			o.setByte(i, st.c.Const(8, uint64(x)))
 		}
 	}
 	n := st.c.Const(64, uint64(len(b)))
